@@ -33,15 +33,15 @@ import (
 func init() { drivers["c13"] = driveC13 }
 
 type c13scn struct {
-	Seed   int64  `json:"seed"`
-	Kind   string `json:"kind"`   // idle | handshake | play | record | stuck
-	Proto  string `json:"proto"`  // tcp | udp | mcast (play scenarios, plain)
-	Tunnel string `json:"tunnel"` // "" | http | ws
-	TLS    bool   `json:"tls"`
-	Closer string `json:"closer"` // server | stream | client | teardown
-	Slow   bool   `json:"slow"`
-	N      int    `json:"n"` // readers
-	Cycles int    `json:"cycles"` // pause / resume cycles of the readers or of the publisher before the first Close
+	Seed   int64    `json:"seed"`
+	Kind   string   `json:"kind"`   // idle | handshake | play | record | stuck
+	Proto  string   `json:"proto"`  // tcp | udp | mcast (play scenarios, plain)
+	Tunnel string   `json:"tunnel"` // "" | http | ws
+	TLS    bool     `json:"tls"`
+	Closer string   `json:"closer"` // server | stream | client | teardown
+	Slow   bool     `json:"slow"`
+	N      int      `json:"n"`             // readers
+	Cycles int      `json:"cycles"`        // pause / resume cycles of the readers or of the publisher before the first Close
 	Mix    []string `json:"mix,omitempty"` // play: transport of each reader when they differ (tcp | udp | mcast)
 }
 
